@@ -23,9 +23,13 @@ META = {
         "(a) every prefix renamed through a permutation chosen from 4 fresh-name schemes (incl. reuse of ns0/ns1/xsi for other URIs), consistently inside xsi:type and QName-typed values; optionally the root's namespace moved to the default namespace",
         "(b) attribute order reversed; (c) white-space-only strings (symbolic over space/tab/LF/CR, <= 2) as text before the first child and as tail of every child of element-only content",
         "(d) symbolic white space around non-string leaf values; (e) all in-scope declarations redundantly repeated on a selector-chosen descendant",
+        "(g) text level, through the real lxml / expat front ends (harness/textpath.py): a comment or a processing instruction inserted at EVERY character-data / between-tags position (symbolic position), "
+        "every literal character of character data and of attribute values replaced by a character reference, every character-data run wrapped in CDATA, white space before every tag end, quote style, "
+        "5 encodings with matching declarations; both handlers, outcome compared with the unrewritten document's",
         "(f) inside a selector-chosen subtree every in-scope prefix is shadowed (re-bound to a dummy URI) and replaced by a fresh one; later siblings keep using the outer binding",
     ],
-    "outside": ["comments, PIs, CDATA, character references, encodings, XInclude file loading: resolved inside expat/libxml2 before the seam"],
+    "outside": ["XInclude file loading", "text-level rewrites are applied ONE at a time to the serialised pool documents (compositions only at the event level); "
+                "the C parsers themselves are executed, not modelled: for the text-level drivers the solver only enumerates the position"],
     "stubs": ["SAX seam", "CrossHair model pack", "XmlContext.get_subclasses(object) iterates the model pool"],
     "assumptions": [],
 }
@@ -243,11 +247,94 @@ def base_url(b: int, s: int) -> bool:
     return result(got == want)
 
 
+# ---------------------------------------------------------------------------------------------------------------------
+# text-level rewrites through the REAL front ends (harness/textpath.py): comments, processing instructions, character
+# references, CDATA sections, white space inside tags, quote style, encodings.  The position is the symbolic input.
+from harness import textpath  # noqa: E402
+from harness.common import concretize, concretize_bs, untraced  # noqa: E402
+
+_TP = {}
+
+
+def _tp_n():
+    key = (_DOC, PART.get("kind", "comment"))
+    if key not in _TP:
+        with untraced():
+            _TP[key] = textpath.n_positions(*key)
+    return _TP[key]
+
+
+def _outcome(data, cls, handler):
+    try:
+        return textpath.parse(data, cls, handler)
+    except Exception as e:  # noqa: BLE001
+        return ("err", type(e).__name__)
+
+
+def _text_rewrite(doc, kind, k):
+    cls, text = textpath.doc_text(doc)
+    new = textpath.rewrite(doc, kind, k)
+    if new is None:
+        return {"ok": True, "skipped": "rewrite does not apply at this position"}
+    out = {"ok": True, "document": new[:400]}
+    for h in ("lxml", "native"):
+        base, got = _outcome(text, cls, h), _outcome(new, cls, h)
+        if base != got:
+            out["ok"] = False
+            out[h] = {"original": repr(base)[:300], "rewritten": repr(got)[:300]}
+    return out
+
+
+def text_rewrite(k: int) -> bool:
+    """
+    pre: 0 <= k < _tp_n()
+    post: _
+    """
+    ck = concretize_bs(k, _tp_n())
+    with untraced():
+        return result(_text_rewrite(_DOC, PART.get("kind", "comment"), ck)["ok"])
+
+
+def _text_encoding(doc, e):
+    cls, text = textpath.doc_text(doc)
+    data = textpath.encoded(doc, textpath.ENCODINGS[e])
+    out = {"ok": True, "encoding": textpath.ENCODINGS[e]}
+    for h in ("lxml", "native"):
+        base, got = _outcome(text, cls, h), _outcome(data, cls, h)
+        if base != got:
+            out["ok"] = False
+            out[h] = {"original": repr(base)[:300], "recoded": repr(got)[:300]}
+    return out
+
+
+def text_encoding(e: int) -> bool:
+    """
+    pre: 0 <= e < len(textpath.ENCODINGS)
+    post: _
+    """
+    ce = concretize(e, len(textpath.ENCODINGS))
+    with untraced():
+        return result(_text_encoding(_DOC, ce)["ok"])
+
+
 PRE = {}
-EXPLAIN = {}
+EXPLAIN = {"text_rewrite": lambda k: _text_rewrite(_DOC, PART.get("kind", "comment"), k), "text_encoding": lambda e: _text_encoding(_DOC, e)}
 
 
 def plan(tier):
+    quick = tier == "quick"
+    jobs = _plan_seam(tier)
+    tdocs = ["basic", "qnames", "mixed", "wild", "holder", "temporal", "compound", "nillable", "textattr", "anytyped", "lists", "enums"] if quick else sorted(mutate.DOCS)
+    for doc in tdocs:
+        for kind in textpath.REWRITES:
+            if textpath.n_positions(doc, kind) == 0:
+                continue  # rewrite kind not applicable to this document (would be a vacuous harness)
+            jobs.append(Job("text_rewrite", {"doc": doc, "kind": kind}, 300, 30, note="real lxml / expat front ends; position symbolic"))
+        jobs.append(Job("text_encoding", {"doc": doc}, 120, 30, note="real lxml / expat front ends"))
+    return jobs
+
+
+def _plan_seam(tier):
     quick = tier == "quick"
     docs = ["basic", "parenta", "holder", "qnames", "enums", "nillable", "nsattr", "wrapped", "anystr", "family"] if quick else [d for d in mutate.DOCS if d not in ("mixed",)]
     jobs = []
